@@ -7,6 +7,8 @@ import shim  # noqa: F401
 import cola
 from cola import ops
 from cola.linalg.inverse.cg import cg
+from cola.linalg.inverse.gmres import gmres
+import cola.linalg.decompositions.decompositions
 from cola.linalg.decompositions.lanczos import lanczos
 from cola.linalg.decompositions.arnoldi import arnoldi
 from cola.linalg.eig.power_iteration import power_iteration
@@ -335,13 +337,33 @@ def _mk_alphabet():
         mi = c.rnd.randint(0, 4)
         return lambda: cg(A, b, x0=x0, max_iters=mi, tol=1e-6)
 
-    @op("gmres_apply")
+    @op("gmres")
     def _(c):
         A, _ = c.pick(lambda M: small_sq(M))
         if A is None:
             return None
         b = c.operand(A.shape[0], None, A.dtype, "b")
-        return lambda: cola.linalg.inv(A, cola.GMRES(max_iters=3)) @ b
+        b[0] += 5
+        c.tracked[-1] = (b, snap(b), "b")
+        x0 = c.operand(A.shape[0], None, A.dtype, "x0")
+        mi = c.rnd.randint(1, 3)
+        return lambda: gmres(A, b, x0=x0, max_iters=mi)
+
+    @op("sqrt_apply")
+    def _(c):
+        A, _ = c.pick(lambda M: small_sq(M))
+        if A is None:
+            return None
+        v = c.operand(A.shape[0], None, A.dtype, "v")
+        return lambda: cola.linalg.sqrt(A) @ v
+
+    @op("cholesky_like")
+    def _(c):
+        A, _ = c.pick(lambda M: small_sq(M))
+        if A is None:
+            return None
+        f = c.rnd.choice([cola.linalg.decompositions.decompositions.cholesky, cola.linalg.decompositions.decompositions.plu])
+        return lambda: f(A)
 
     @op("lanczos")
     def _(c):
